@@ -576,13 +576,25 @@ vunpackvs(VDATA *vs,    /* IN/OUT: */
         /* retrieve the vsname (and vsnamelen)  */
         INT16DECODE(bb, int16var); /* this gives the length */
 
-        HIstrncpy(vs->vsname, (char *)bb, int16var + 1);
+        /* the name buffer is fixed size: a longer name (the format allows 16 bits
+         * of length, other writers may use them) is truncated, not copied past it */
+        temp = int16var;
+        if (temp > VSNAMELENMAX)
+            temp = VSNAMELENMAX;
+        if (temp < 0)
+            temp = 0;
+        HIstrncpy(vs->vsname, (char *)bb, temp + 1);
         bb += (size_t)int16var;
 
         /* retrieve the vsclass (and vsclasslen)  */
         INT16DECODE(bb, int16var); /* this gives the length */
 
-        HIstrncpy(vs->vsclass, (char *)bb, int16var + 1);
+        temp = int16var;
+        if (temp > VSNAMELENMAX)
+            temp = VSNAMELENMAX;
+        if (temp < 0)
+            temp = 0;
+        HIstrncpy(vs->vsclass, (char *)bb, temp + 1);
         bb += (size_t)int16var;
 
         /* retrieve the expansion tag and ref */
